@@ -218,7 +218,7 @@ func ruleSubjectDelivers() check.Rule {
 							return true
 						}
 						if name, isObs := m.Obj.ObserverMethods[model.Callee(info, call)]; isObs && notifKind(name) >= 0 {
-							if sel, ok := ast.Unparen(call.Fun).(*ast.SelectorExpr); ok {
+							if sel := callSelector(info, call); sel != nil {
 								if id, ok := ast.Unparen(sel.X).(*ast.Ident); ok {
 									if v, ok := objOf(info, id).(*types.Var); ok && fd.Body.Pos() <= v.Pos() && v.Pos() <= fd.Body.End() && inRegion(notifKind(name), call) {
 										kinds[notifKind(name)] = true
